@@ -178,6 +178,14 @@ def relations(cell, k, x1, x2, dense, fails, feats, seed):
             fails.check_close("diag", k(x1).diagonal(dim1=-1, dim2=-2), full.diagonal(dim1=-1, dim2=-2), 1e-12, 1e-12, "lazy .diagonal()")
             fails.check_close("diag", k(x1, diag=True), full.diagonal(dim1=-1, dim2=-2), 1e-12, 1e-12, "k(x, diag=True)")
             ops += 3
+        with fails.guard("vector-input"):
+            # the documented shorthand for one input dimension: n points given as a vector (only for kernels restricted to / built for 1 column)
+            if cell["ad"] == [0] and not (cell["x1b"] or cell["x2b"]) and kern not in ("sum_ad",):
+                v1, v2 = x1[..., 0], x2[..., 0]
+                with S.lazily_evaluate_kernels(False):
+                    want_v = k(v1.unsqueeze(-1), v2.unsqueeze(-1)).to_dense()
+                fails.check_close("vector-input", k(v1, v2).to_dense(), want_v, 1e-12, 1e-12, "k(vector of n points) != k(n x 1 matrix)")
+                ops += 1
         with fails.guard("lazy-diagonal-cross"):
             # the diagonal of a lazily evaluated CROSS-covariance between two different point sets of equal size
             x1c = x1 + 0.37
